@@ -222,8 +222,12 @@ Qed.
 
 Lemma tail_mon24 q tl : TailX q false [] (all_steps q) (msgs_of (rq_id q) tl) -> mon24_req tl q = true.
 Proof.
-  intro HT. destruct (tailx_blocks _ _ _ _ _ HT) as (Hn & _ & Hk). unfold mon24_req.
-  fold (skipv q). rewrite Hk. simpl. now apply nodupb_of_NoDup.
+  intro HT. destruct (tailx_blocks _ _ _ _ _ HT) as (Hn & Hd & Hk). unfold mon24_req.
+  fold (skipv q). fold (ign q). rewrite Hk. cbn [andb]. rewrite (nodupb_of_NoDup _ Hn). cbn [andb].
+  apply forallb_forall. intros c Hc. apply negb_true_iff.
+  destruct (existsb (N.eqb c) (ign q)) eqn:E; [|reflexivity].
+  exfalso. apply (Hd c Hc). apply in_app_iff. left.
+  apply existsb_exists in E. destruct E as [c' [Hin Heq]]. apply N.eqb_eq in Heq. now subst c'.
 Qed.
 
 (* ---------- the simulation invariant ---------- *)
